@@ -112,36 +112,37 @@ type worker struct {
 
 type sink struct{ n int }
 
-func (s *sink) Null()           { s.n++ }
-func (s *sink) Bool(bool)       { s.n++ }
-func (s *sink) Int(int64)       { s.n++ }
-func (s *sink) Float(float64)   { s.n++ }
-func (s *sink) Number(string)   { s.n++ }
-func (s *sink) String(string)   { s.n++ }
-func (s *sink) ObjectStart()    { s.n++ }
-func (s *sink) ObjectEnd()      { s.n++ }
-func (s *sink) Key(string)      { s.n++ }
-func (s *sink) ArrayStart()     { s.n++ }
-func (s *sink) ArrayEnd()       { s.n++ }
+func (s *sink) Null()         { s.n++ }
+func (s *sink) Bool(bool)     { s.n++ }
+func (s *sink) Int(int64)     { s.n++ }
+func (s *sink) Float(float64) { s.n++ }
+func (s *sink) Number(string) { s.n++ }
+func (s *sink) String(string) { s.n++ }
+func (s *sink) ObjectStart()  { s.n++ }
+func (s *sink) ObjectEnd()    { s.n++ }
+func (s *sink) Key(string)    { s.n++ }
+func (s *sink) ArrayStart()   { s.n++ }
+func (s *sink) ArrayEnd()     { s.n++ }
 
 const nInputs = 48
 
 var (
-	srcs    [nInputs]string
-	sorted  = &ojg.Options{Sort: true}
-	sortedW = &ojg.Options{Sort: true, WriteLimit: 16}
-	indent  = &ojg.Options{Sort: true, Indent: 2, OmitNil: true}
-	x1      = jp.MustParseString("$.a[?(@.x > 1)].y")
-	x2      = jp.MustParseString("$..y")
-	x3      = jp.MustParseString("$.a[*].x")
-	x4      = jp.MustParseString("$.a[1:3].y")
-	x5      = jp.R().C("a").N(-1).C("y")
-	x6      = jp.MustParseString("$.a[?(@.y =~ /b/ || length(@.y) > 1)].x")
-	xdel    = jp.MustParseString("$.a[1]")
-	script  = jp.MustNewScript("(@.x == 2 || @.y =~ /b/)")
-	filter  = jp.MustNewFilter("[?(@.x >= 2 && @.x != 3)]")
-	rec     *alt.Recomposer
-	structs []reflect.Type
+	srcs     [nInputs]string
+	sorted   = &ojg.Options{Sort: true}
+	sortedW  = &ojg.Options{Sort: true, WriteLimit: 16}
+	indent   = &ojg.Options{Sort: true, Indent: 2, OmitNil: true}
+	x1       = jp.MustParseString("$.a[?(@.x > 1)].y")
+	x2       = jp.MustParseString("$..y")
+	x3       = jp.MustParseString("$.a[*].x")
+	x4       = jp.MustParseString("$.a[1:3].y")
+	x5       = jp.R().C("a").N(-1).C("y")
+	x6       = jp.MustParseString("$.a[?(@.y =~ /b/ || length(@.y) > 1)].x")
+	xdel     = jp.MustParseString("$.a[1]")
+	script   = jp.MustNewScript("(@.x == 2 || @.y =~ /b/)")
+	filter   = jp.MustNewFilter("[?(@.x >= 2 && @.x != 3)]")
+	rec      *alt.Recomposer
+	structs  []reflect.Type
+	structs2 []reflect.Type
 )
 
 func init() {
@@ -206,17 +207,30 @@ func ops() []op {
 	return []op{
 		{"oj.Parse", func(w *worker, i int) string { v, err := oj.Parse([]byte(srcs[i])); return fmt.Sprint(showS(v), err) }},
 		{"oj.ParseString", func(w *worker, i int) string { v, err := oj.ParseString(srcs[i]); return fmt.Sprint(showS(v), err) }},
-		{"oj.Load", func(w *worker, i int) string { v, err := oj.Load(strings.NewReader(srcs[i])); return fmt.Sprint(showS(v), err) }},
-		{"oj.Parse(bad)", func(w *worker, i int) string { v, err := oj.Parse([]byte(srcs[i][:len(srcs[i])/2])); return fmt.Sprint(showS(v), err) }},
+		{"oj.Load", func(w *worker, i int) string {
+			v, err := oj.Load(strings.NewReader(srcs[i]))
+			return fmt.Sprint(showS(v), err)
+		}},
+		{"oj.Parse(bad)", func(w *worker, i int) string {
+			v, err := oj.Parse([]byte(srcs[i][:len(srcs[i])/2]))
+			return fmt.Sprint(showS(v), err)
+		}},
 		{"oj.Validate", func(w *worker, i int) string { return fmt.Sprint(oj.Validate([]byte(srcs[i]))) }},
-		{"oj.Tokenize", func(w *worker, i int) string { s := &sink{}; err := oj.Tokenize([]byte(srcs[i]), s); return fmt.Sprint(s.n, err) }},
+		{"oj.Tokenize", func(w *worker, i int) string {
+			s := &sink{}
+			err := oj.Tokenize([]byte(srcs[i]), s)
+			return fmt.Sprint(s.n, err)
+		}},
 		{"oj.Match", func(w *worker, i int) string {
 			var got []string
 			err := oj.Match([]byte(srcs[i]), func(p jp.Expr, d any) { got = append(got, p.String()+"="+showS(d)) }, x3)
 			return fmt.Sprint(got, err)
 		}},
 		{"sen.Parse", func(w *worker, i int) string { v, err := sen.Parse([]byte(srcs[i])); return fmt.Sprint(showS(v), err) }},
-		{"sen.ParseReader", func(w *worker, i int) string { v, err := sen.ParseReader(strings.NewReader(srcs[i])); return fmt.Sprint(showS(v), err) }},
+		{"sen.ParseReader", func(w *worker, i int) string {
+			v, err := sen.ParseReader(strings.NewReader(srcs[i]))
+			return fmt.Sprint(showS(v), err)
+		}},
 		{"oj.JSON", func(w *worker, i int) string { return fmt.Sprint(len(oj.JSON(parsed(i)))) }},
 		{"oj.JSON(big,pooled)", func(w *worker, i int) string {
 			// longer than WriteLimit: a pooled writer that still holds somebody's io.Writer would flush into it
@@ -268,7 +282,9 @@ func ops() []op {
 			return fmt.Sprint(buf.String(), err)
 		}},
 		{"sen.String", func(w *worker, i int) string { return sen.String(parsed(i), sorted) }},
-		{"sen.String(pooled)", func(w *worker, i int) string { return sen.String([]any{int64(i), "a b", map[string]any{"k": int64(i)}}) }},
+		{"sen.String(pooled)", func(w *worker, i int) string {
+			return sen.String([]any{int64(i), "a b", map[string]any{"k": int64(i)}})
+		}},
 		{"sen.Bytes", func(w *worker, i int) string {
 			b := sen.Bytes([]any{int64(i), "a b", map[string]any{"k": int64(i)}, strings.Repeat("z", i)})
 			w.stable("sen.Bytes", b, i)
@@ -348,6 +364,28 @@ func ops() []op {
 			v := &S1{A: i, B: "b", C: []int{i}, D: map[string]*S2{"k": {X: 1, Y: &S1{A: 2}}}}
 			return oj.JSON(v, sorted) + sen.String(v, sorted) + pretty.JSON(v, sorted)
 		}},
+		{"sen.Parse(pending +)", func(w *worker, i int) string {
+			// rejected while a string concatenation is pending: the pooled parser goes back with that state
+			_, err := sen.Parse([]byte([]string{`["abc" + 1]`, `{msg: "total: " + count}`, `["abc" +`}[i%3]))
+			return fmt.Sprint(err != nil)
+		}},
+		{"sen.ParseReader(strings)", func(w *worker, i int) string {
+			v, err := sen.ParseReader(strings.NewReader(fmt.Sprintf(`[a "b%d" "c"]`, i)))
+			return fmt.Sprint(showS(v), err)
+		}},
+		{"struct(new type, indented)", func(w *worker, i int) string {
+			// as below, but the first use of the type happens in the indenting encoders
+			st := structs2[(i*7+w.g)%len(structs2)]
+			sv := reflect.New(st).Elem()
+			sv.Field(0).SetInt(int64(i))
+			sv.Field(1).SetString("s")
+			w.c.Cover("struct-types-first-seen-concurrently-indented")
+			a := oj.JSON(sv.Interface(), indent)
+			b := sen.String(sv.Addr().Interface(), indent)
+			m, _ := oj.Marshal(sv.Addr().Interface(), 2)
+			p := pretty.JSON(sv.Interface(), indent)
+			return a + b + string(m) + p
+		}},
 		{"struct(new type)", func(w *worker, i int) string {
 			// struct types first seen during the run: the struct-info caches are written while read
 			st := structs[(i*7+w.g)%len(structs)]
@@ -409,6 +447,15 @@ func run(c *mon.Ctx) {
 			{Name: "P", Type: reflect.TypeOf((*S2)(nil))},
 		}))
 	}
+	structs2 = nil
+	for k := 0; k < 400; k++ {
+		structs2 = append(structs2, reflect.StructOf([]reflect.StructField{
+			{Name: fmt.Sprintf("H%d_%d", c.Batch, k), Type: reflect.TypeOf(0)},
+			{Name: fmt.Sprintf("K%d", k%50), Type: reflect.TypeOf(""), Tag: reflect.StructTag(fmt.Sprintf(`json:"k%d,omitempty"`, k%3))},
+			{Name: "P", Type: reflect.TypeOf((*S2)(nil))},
+			{Name: "L", Type: reflect.TypeOf([]T4(nil))},
+		}))
+	}
 	all := ops()
 	// sequential baseline (struct(new type) uses types that are NOT touched here: its baseline is computed per type lazily after the run)
 	base := make([][]string, len(all))
@@ -417,7 +464,7 @@ func run(c *mon.Ctx) {
 	}
 	if !race || true {
 		for oi, o := range all {
-			if o.name == "struct(new type)" || strings.Contains(o.name, "reachable types") {
+			if strings.HasPrefix(o.name, "struct(new type") || strings.Contains(o.name, "reachable types") {
 				continue // these are first used during the concurrent phase; compared afterwards
 			}
 			w0 := &worker{g: 0, c: c}
@@ -429,7 +476,7 @@ func run(c *mon.Ctx) {
 		// depend on which call ran before
 		for oi := len(all) - 1; oi >= 0; oi-- {
 			o := all[oi]
-			if o.name == "struct(new type)" || strings.Contains(o.name, "reachable types") {
+			if strings.HasPrefix(o.name, "struct(new type") || strings.Contains(o.name, "reachable types") {
 				continue
 			}
 			w0 := &worker{g: 0, c: c}
@@ -476,7 +523,7 @@ func run(c *mon.Ctx) {
 					continue
 				}
 				c.Eval(1)
-				if o.name == "struct(new type)" || strings.Contains(o.name, "reachable types") {
+				if strings.HasPrefix(o.name, "struct(new type") || strings.Contains(o.name, "reachable types") {
 					lateMu.Lock()
 					late = append(late, lateCheck{w.g, oi, i, res})
 					lateMu.Unlock()
